@@ -23,6 +23,11 @@ class Violation(Exception):
         self.witness = witness
 
 
+class OutOfDomain(Exception):
+    """The generated case left the property's numeric domain (e.g. the documented direction overflows the dtype); the case
+    ends without a verdict and is counted."""
+
+
 class Inconclusive(Exception):
     """The deciding monitor could not attach / was never reached (harness-side problem)."""
 
@@ -157,3 +162,38 @@ def log2ceil(x):
 
 def eprint(*a):
     print(*a, file=sys.stderr, flush=True)
+
+
+class KernelObserver:
+    """Watches the third-party boundary torch.linalg.eigh: records when LAPACK silently returns non-finite output for a
+    finite input (observed with MKL ssyevd on rank-deficient float32 matrices when run single-threaded).  Behaviour is
+    not changed; the record lets a check tell 'the repository reacted to a broken kernel result as documented'
+    (PreconditionerValueError) from 'the repository produced non-finite values itself'."""
+
+    def __init__(self):
+        self.nonfinite_from_finite = 0
+        self.calls = 0
+
+    def __enter__(self):
+        import torch
+
+        self._torch = torch
+        self._orig = torch.linalg.eigh
+        obs = self
+
+        def eigh(A, *a, **k):
+            out = obs._orig(A, *a, **k)
+            obs.calls += 1
+            try:
+                if bool(torch.isfinite(A).all()) and not (bool(torch.isfinite(out[0]).all()) and bool(torch.isfinite(out[1]).all())):
+                    obs.nonfinite_from_finite += 1
+            except Exception:  # noqa
+                pass
+            return out
+
+        torch.linalg.eigh = eigh
+        return self
+
+    def __exit__(self, *exc):
+        self._torch.linalg.eigh = self._orig
+        return False
